@@ -99,7 +99,22 @@ impl Stats {
     pub fn note_n(&mut self, s: &str, n: u64) {
         *self.notes.entry(s.to_string()).or_insert(0) += n;
     }
-    pub fn violation(&mut self, v: Violation) {
+    pub fn violation(&mut self, mut v: Violation) {
+        // what was expected / observed is for reading; the case (kept whole) is what a replay needs
+        for t in [&mut v.expected, &mut v.observed] {
+            if t.len() > 1200 {
+                let n = t.len();
+                let mut cut = 600;
+                while !t.is_char_boundary(cut) {
+                    cut -= 1;
+                }
+                let mut tail = n - 300;
+                while !t.is_char_boundary(tail) {
+                    tail += 1;
+                }
+                *t = format!("{} ...[{} bytes]... {}", &t[..cut], n, &t[tail..]);
+            }
+        }
         if let Some(k) = &v.known {
             *self.known_count.entry(k.clone()).or_insert(0) += 1;
             // keep one example per known key
